@@ -486,5 +486,8 @@ func TestC01(t *testing.T) {
 		driver := driver
 		parallelCases(vlib.Scale(12, 300), 4, func(i int) { contractEconomy(ev, "C01", driver, i) })
 	}
+	for _, driver := range vlib.Drivers() {
+		c01ManyTrialNodes(ev, driver)
+	}
 	finish(t, ev)
 }
